@@ -97,11 +97,13 @@ structure ViewAgree (S : Schema) (F : Feats) : Prop where
   typesListing : (view (erase S F) top).typesListing = (view S F).typesListing
   kindOf : ∀ p, S.notHidden F p = true → (view (erase S F) top).kindOf p = (view S F).kindOf p
   getField : ∀ p fn, S.notHidden F p = true → (view (erase S F) top).getField p fn = (view S F).getField p fn
-  fieldsListing : ∀ p, S.notHidden F p = true → (view (erase S F) top).fieldsListing p = (view S F).fieldsListing p
+  fieldsListing : ∀ inc p, S.notHidden F p = true →
+    (view (erase S F) top).fieldsListing inc p = (view S F).fieldsListing inc p
   interfacesOf : ∀ p, S.notHidden F p = true → (view (erase S F) top).interfacesOf p = (view S F).interfacesOf p
   possibleTypes : ∀ p, S.notHidden F p = true → (view (erase S F) top).possibleTypes p = (view S F).possibleTypes p
   inputFields : ∀ p, S.notHidden F p = true → (view (erase S F) top).inputFields p = (view S F).inputFields p
-  enumValues : ∀ p, S.notHidden F p = true → (view (erase S F) top).enumValues p = (view S F).enumValues p
+  enumValues : ∀ inc p, S.notHidden F p = true →
+    (view (erase S F) top).enumValues inc p = (view S F).enumValues inc p
   spreadTypes : ∀ p, S.notHidden F p = true → (view (erase S F) top).spreadTypes p = (view S F).spreadTypes p
   resolveCandidates : ∀ p, S.notHidden F p = true →
     (view (erase S F) top).resolveCandidates p = (view S F).resolveCandidates p
@@ -122,11 +124,11 @@ theorem view_erase (S : Schema) (F : Feats) (hA : Accepted S = true) (hR : Roots
     typesListing := typesListing_erase
     kindOf := fun _ h => kindOf_erase hu h
     getField := fun _ fn h => getField_erase hA h fn
-    fieldsListing := fun _ h => fieldsListing_erase hu h
+    fieldsListing := fun inc _ h => fieldsListing_erase hu h inc
     interfacesOf := fun _ h => interfacesOf_erase hu h
     possibleTypes := fun _ h => possibleTypes_erase hA h
     inputFields := fun _ h => inputFields_erase hu h
-    enumValues := fun _ h => enumValues_erase hu h
+    enumValues := fun inc _ h => enumValues_erase hu h inc
     spreadTypes := fun _ h => spreadTypes_erase hA h
     resolveCandidates := fun _ h => resolveCandidates_erase hA h
     fragApplies := fun _ _ ho hf => fragApplies_erase hA ho hf
@@ -143,7 +145,7 @@ structure ViewClosed (S : Schema) (F : Feats) : Prop where
   typeByName : ∀ n p, (view S F).typeByName n = some p → S.visible F p = true
   typesListing : ∀ p ∈ (view S F).typesListing, S.visible F p = true
   getField : ∀ p fn s, S.notHidden F p = true → (view S F).getField p fn = some s → SigVis S F s
-  fieldsListing : ∀ p l, S.notHidden F p = true → (view S F).fieldsListing p = some l → ∀ s ∈ l, SigVis S F s
+  fieldsListing : ∀ inc p l, S.notHidden F p = true → (view S F).fieldsListing inc p = some l → ∀ s ∈ l, SigVis S F s
   interfacesOf : ∀ p l, (view S F).interfacesOf p = some l → ∀ i ∈ l, S.visible F i = true
   possibleTypes : ∀ p l, S.notHidden F p = true → (view S F).possibleTypes p = some l → ∀ i ∈ l, S.visible F i = true
   inputFields : ∀ p l, S.notHidden F p = true → (view S F).inputFields p = some l → ∀ a ∈ l, S.visible F a.ty.base = true
@@ -162,7 +164,7 @@ theorem view_closed (S : Schema) (F : Feats) (hA : Accepted S = true) (hR : Root
     typeByName := fun _ _ h => typeByName_closed h
     typesListing := typesListing_closed (Accepted.nodup hA)
     getField := fun _ _ _ h hg => getField_closed hA h hg
-    fieldsListing := fun _ _ h hg => fieldsListing_closed hA h hg
+    fieldsListing := fun _ _ _ h hg => fieldsListing_closed hA h hg
     interfacesOf := fun _ _ hg => interfacesOf_closed hg
     possibleTypes := fun _ _ h hg => possibleTypes_closed hA h hg
     inputFields := fun _ _ h hg => inputFields_closed hA h hg
@@ -270,7 +272,7 @@ theorem enable_appears (S : Schema) (F F' : Feats) (h : ∀ x, F x = true → F'
     (∀ n, S.visible F n = true → S.visible F' n = true) ∧
     (∀ n ∈ typesListing S F, n ∈ typesListing S F') ∧
     (∀ p fn s, getField S F p fn = some s → getField S F' p fn = some s) ∧
-    (∀ p l l', fieldsListing S F p = some l → fieldsListing S F' p = some l' → ∀ s ∈ l, s ∈ l') := by
+    (∀ inc p l l', fieldsListing S F inc p = some l → fieldsListing S F' inc p = some l' → ∀ s ∈ l, s ∈ l') := by
   refine ⟨?_, ?_, ?_, ?_⟩
   · intro n hn
     obtain ⟨t, ht, hr⟩ := visible_iff.mp hn
@@ -296,7 +298,7 @@ theorem enable_appears (S : Schema) (F F' : Feats) (h : ∀ x, F x = true → F'
             simp only [reqOk_mono h hr, ↓reduceIte, hg]
           · simp [hr] at hg
       · simp [hk] at hg
-  · intro p l l' hl hl' s hs
+  · intro inc p l l' hl hl' s hs
     unfold fieldsListing at hl hl'
     cases hf : S.find? p with
     | none => simp [hf] at hl
@@ -307,7 +309,9 @@ theorem enable_appears (S : Schema) (F F' : Feats) (h : ∀ x, F x = true → F'
         subst hl; subst hl'
         obtain ⟨f, hfm, rfl⟩ := List.mem_map.mp hs
         have := List.mem_filter.mp hfm
-        exact List.mem_map.mpr ⟨f, List.mem_filter.mpr ⟨this.1, reqOk_mono h this.2⟩, rfl⟩
+        have h2 := this.2
+        simp only [Bool.and_eq_true] at h2
+        exact List.mem_map.mpr ⟨f, List.mem_filter.mpr ⟨this.1, by simp only [Bool.and_eq_true]; exact ⟨h2.1, reqOk_mono h h2.2⟩⟩, rfl⟩
       · simp [hk] at hl
 
 /-- **enable_exact** — … and exactly the elements requiring a newly enabled feature appear: a type
@@ -348,6 +352,18 @@ example :
     typesListing demo noF = ["ID", "Node", "Pub", "Both", "Query"] ∧
     typesListing demo onlyA = ["ID", "Node", "Hidden", "Pub", "Secret", "Both", "Query"] ∧
     (getField demo noF "Query" "secret").isSome = false ∧ (getField demo onlyA "Query" "secret").isSome = true := by
+  decide
+
+/-- Non-vacuity for `includeDeprecated`: a field that is deprecated *and* gated is listed only when
+    `includeDeprecated` is given **and** the feature is enabled (the two tests are independent). -/
+example :
+    let S : Schema :=
+      { types := [mkT .scalar "ID" [],
+                  mkT .object "Query" [] [idF, { name := "old", ty := .named "ID", req := ["a"], args := [], deprecated := true }]],
+        query := "Query", mutation := none, subscription := none }
+    (fieldsListing S noF true "Query").map (·.map (·.name)) = some ["id"] ∧
+    (fieldsListing S onlyA true "Query").map (·.map (·.name)) = some ["id", "old"] ∧
+    (fieldsListing S onlyA false "Query").map (·.map (·.name)) = some ["id"] := by
   decide
 
 /-! ## Negation witnesses: the accessors as shipped (before the fixes), and the one that stays raw -/
